@@ -18,7 +18,8 @@ THEOREMS = [
     "C08_adapters_wf_storage", "C08_adapters_wf_reachable", "C08_sys_lookup1_eq_lookup",
     "C08_c_lookup_eq_py", "C08_c_lookup1_eq_py", "C08_c_adapter_hook_eq_py", "C08_c_queryAdapter_eq_py",
     "C08_c_lookupAll_subscriptions_eq_py", "C08_c_default_by_identity",
-    "C08_generated_py_eq_model", "C08_generated_c_eq_model", "C08_generated_c_lookup1_eq_generated_py_lookup",
+    "C08_generated_py_eq_model", "C08_generated_c_eq_model", "C08_generated_c_wrappers",
+    "C08_generated_c_lookup1_eq_generated_py_lookup",
 ]
 RULE = ("worlds of 3-5 interfaces, 2-3 classes, 3 instances (some directly providing) plus 1-2 super proxies; "
         "1-3 registries of one flavour; rounds of 1-8 mutations (register/unregister/subscribe/unsubscribe, "
@@ -26,7 +27,7 @@ RULE = ("worlds of 3-5 interfaces, 2-3 classes, 3 instances (some directly provi
         "groups: for one key (registry, arity 0-3 objects or bare specifications, provided, name) EVERY entry point "
         "(lookup for 4 names, lookup1, queryAdapter, adapter_hook, queryMultiAdapter, lookupAll, names, subscriptions, "
         "subscribers, handlers, truthy and falsy non-string names (42, b'', 0, (), None, ...) on every path) in random order from the cold cache and again in another "
-        "random order from the warm cache; with probability 0.4 per round a DYNAMIC block: registrations that hit for one key, exactly one warm call through one entry point (each of the nine in turn), an in-place change of a class declaration the key depends on (classImplements / classImplementsFirst / classImplementsOnly on the class of the object, of a base class, of the class behind a super proxy), then every entry point for the same key; a case is non-trivial when some lookup in it found a factory; distinct = "
+        "random order from the warm cache; with probability 0.6 per round a MUTATION block: a registration / subscription in the registry or in a registry above it that hits for one key, one warm call through ONE entry point (each of the nine), a mutation of the registry holding it (a verifying sub-registry is not told), the SAME entry point again first, then the whole group; factories return None, FALSY non-None results (0, (), '', 0.0, an empty container-like object) or numbers; with probability 0.4 per round a DYNAMIC block: registrations that hit for one key, exactly one warm call through one entry point (each of the nine in turn), an in-place change of a class declaration the key depends on (classImplements / classImplementsFirst / classImplementsOnly on the class of the object, of a base class, of the class behind a super proxy), then every entry point for the same key; a case is non-trivial when some lookup in it found a factory; distinct = "
         "distinct (flavour, arities, first entry point of each group) signature")
 TRUSTED_BASE = ["the cache layer Model/Lookup.v (shared) and Model/CLookup.v are proved equal, on every run, to kernels regenerated "
                 "from adapter.py (LookupBase, AdapterLookupBase) and from the C functions _getcache/_lookup/_lookup1/"
@@ -267,6 +268,62 @@ def gen_ops(rng, world, ifaces, classes):
         rel = RC.Rel(wdyn)
         return out + group(forced=(r, objs, pq, nm))
 
+    def chain(r):
+        """registry r and the registries above it (as created; __bases__ changes may have moved them)"""
+        seen, todo = [], [r]
+        while todo:
+            x = todo.pop(0)
+            if x not in seen:
+                seen.append(x)
+                todo += ops[x][2]
+        return seen
+
+    def mutation_block():
+        """a registration (subscription) in registry r or in a registry ABOVE it that hits for one key, ONE warm
+        call through one entry point of r, a mutation of the registry holding it (re-register another value /
+        unregister / a more specific registration / (un)subscribe) - for a verifying registry nobody tells r -,
+        then the SAME entry point first, then every entry point for the same key"""
+        r = rng.choice([n_regs - 1, rng.randrange(n_regs)])
+        src = rng.choice(chain(r))
+        ar = rng.choice([1, 1, 1, 2, 0])
+        objs = pick_objs(ar)
+        p, nm = rng.choice(ifaces), rng.choice(NAMES)
+        key = [rng.choice(_obj_specs(rel, wdyn, k)) for k in objs]
+        sub = rng.random() < 0.3
+        out = []
+        if sub:
+            sp = rng.choice([p, p, None])
+            out.append(["subscribe", src, key, sp, RC.gen_value(rng)])
+            subs_seen.append((objs, key, sp))
+        else:
+            out.append(["register", src, key, p, nm, RC.gen_value(rng)])
+            regs_seen.append((objs, key, p, nm))
+        req = [{"prov": k} for k in objs]
+        pq = rng.choice([y for y in rel.ancestors(p) if y in ifaces or y == 0])
+        if sub:
+            warm = [["subscriptions", r, req, sp and pq], ["subscribers", r, objs, sp and pq]]
+        else:
+            warm = [["lookup", r, req, pq, nm], ["queryMultiAdapter", r, objs, pq, nm], ["lookupAll", r, req, pq],
+                    ["names", r, req, pq]]
+            if ar == 1:
+                warm += [["lookup1", r, req[0], pq, nm], ["queryAdapter", r, objs[0], pq, nm],
+                         ["adapter_hook", r, objs[0], pq, nm]] * 2
+        e = rng.choice(warm)
+        out.append(e)
+        x = rng.random()
+        if sub:
+            out.append(["subscribe", src, key, sp, RC.gen_value(rng)] if x < 0.5 else ["unsubscribe", src, key, sp, None])
+        elif x < 0.4:
+            out.append(["register", src, key, p, nm, RC.gen_value(rng)])
+        elif x < 0.7:
+            out.append(["unregister", src, key, p, nm, None])
+        else:
+            key2 = [rng.choice(_obj_specs(rel, wdyn, k)) for k in objs]
+            out.append(["register", rng.choice(chain(r)), key2, p, nm, RC.gen_value(rng)])
+            regs_seen.append((objs, key2, p, nm))
+        out.append(list(e))
+        return out + group(forced=(r, objs, pq, nm))
+
     for rnd in range(rng.choice([2, 3, 3, 4])):
         for _ in range(rng.choice([3, 5, 8]) if rnd == 0 else rng.choice([1, 1, 2, 3])):
             ops.append(mutation())
@@ -274,13 +331,15 @@ def gen_ops(rng, world, ifaces, classes):
             ops += group()
         if rng.random() < 0.4:
             ops += dynamic_block()
+        if rng.random() < 0.6:
+            ops += mutation_block()
     return ops
 
 
 def generate(run, tier):
     rng = run.rng("gen")
     cases = []
-    for _ in range(120 if tier == "quick" else 1500):
+    for _ in range(80 if tier == "quick" else 1000):
         world, ifaces, classes = RC.gen_world(rng, n_ifaces=rng.choice([3, 4, 5]), n_classes=rng.choice([2, 3]),
                                               n_objects=3)
         _add_supers(rng, world, classes)
@@ -368,7 +427,7 @@ TECHNIQUE = ("Coq proofs over the shared Gallina model of LookupBase / AdapterLo
              "source text by fail-closed translators on every run; vm_compute correspondence of whole "
              "registry histories with both implementations; the implementation's answers are judged against each other "
              "in Coq per the property statement")
-LEVEL_TEXT = ("Machine-checked theorems (Properties/C08.v, 28 theorems, closed under the global context) state, for all "
+LEVEL_TEXT = ("Machine-checked theorems (Properties/C08.v, 29 theorems, closed under the global context) state, for all "
               "uncached computations, factory behaviours, objects and ALL cache states (relations between entry points) "
               "resp. all cache states reachable by any sequence of entry-point calls (cache independence), that lookup1, "
               "queryAdapter, adapter_hook, queryMultiAdapter, names and subscribers are the stated functions of lookup / "
